@@ -38,6 +38,11 @@ type World struct {
 	Funcs []*ssa.Function
 	// Overlay used (for controls); nil for the real tree
 	Overlay map[string][]byte
+	// globalFacts: what the package initialisers store into package-level variables that nothing else ever
+	// writes (tables), by symbolic location key; computed on first use (globals.go)
+	globalFacts   map[string]AV
+	globalUnknown map[string]bool
+	globalFinal   map[string]bool // by variable name (two analysed packages never share one)
 }
 
 // UndecidedError is raised (panic) when the analysis cannot locate or
